@@ -54,7 +54,9 @@ fn verif_replay_c19() {
         if let Some((o, e)) = bad64(x) { out(true, serde_json::json!({"bits": 64, "x": x}), o, e, cases); return; }
         if let Some((o, e)) = bad32(x as u32) { out(true, serde_json::json!({"bits": 32, "x": (x as u32)}), o, e, cases); return; }
     }
-    if thorough {
+    // the 32-bit pair is always swept exhaustively (a few seconds in release): a witness search only runs when an
+    // obligation failed or could not be decided, and a one-in-2^32 failing word must not be missed then
+    {
         for x in 0..=u32::MAX {
             cases += 1;
             if let Some((o, e)) = bad32(x) { out(true, serde_json::json!({"bits": 32, "x": x}), o, e, cases); return; }
